@@ -106,6 +106,7 @@ let handle (line : string) : string =
     let k = match kind with "commits" -> M.KCommits | "signing" -> M.KSigning | _ -> M.KLater in
     "c18air " ^ (match M.aclass_of k (had = "1") (ok = "1") with M.AOk -> "ok" | M.AErrorResult -> "error-result" | M.ARejected -> "rejected")
   | "c04lock" :: _ -> "c04lock waits=" ^ (if M.tick_waits_during_command then "true" else "false")
+  | "c04gap" :: _ -> "c04gap saved-without-password=" ^ (if M.gap_saves_without_password then "true" else "false")
   | "c04rounds" :: t1 :: m1 :: t2 :: m2 :: _ ->
     let nat s = M.N.to_nat (n_of_int (int_of_string s)) in
     let ms s = List.map nat (String.split_on_char ',' s) in
